@@ -87,9 +87,20 @@ def working_names(fn, upto_line):
     return params
 
 
-def analyse(fn, module_containers):
+def analyse(fn, module_containers, cls_node=None):
     """[(rule, message, node)]"""
     out = []
+    # containers defined in the class body and never re-bound per instance are shared by all instances
+    class_level = set()
+    if cls_node is not None:
+        per_instance = {t.attr for f in cls_node.body if isinstance(f, ast.FunctionDef) for n in ast.walk(f)
+                        if isinstance(n, ast.Assign) for t in n.targets
+                        if isinstance(t, ast.Attribute) and isinstance(t.value, ast.Name) and t.value.id == 'self'}
+        for st in cls_node.body:
+            if isinstance(st, (ast.Assign, ast.AnnAssign)):
+                for t in (st.targets if isinstance(st, ast.Assign) else [st.target]):
+                    if isinstance(t, ast.Name) and t.id not in per_instance:
+                        class_level.add('self.' + t.id)
     params = {a.arg for a in fn.args.args + fn.args.kwonlyargs} - {'self', 'cls'}
     memos = find_memos(fn, module_containers)
     for cont, key, store, value in memos:
@@ -138,6 +149,16 @@ def analyse(fn, module_containers):
         if missing:
             out.append(('M2', 'the memo %s is keyed by %s but the value it stores is computed from the parameter(s) %s as well: a later '
                         'call with the same key and another %s gets the answer of the earlier call' % (cont, ktxt, ', '.join(missing), missing[0]), store))
+        # M5: a memo in a class-level container is shared by every instance; if the miss path consults the instance (self.attr,
+        # self.method()) the instance is an input that the key does not separate
+        if cont in class_level:
+            inst = sorted({'self.' + n.attr for n in ast.walk(fn) if isinstance(n, ast.Attribute) and isinstance(n.value, ast.Name)
+                           and n.value.id == 'self' and isinstance(n.ctx, ast.Load) and 'self.' + n.attr != cont
+                           and look <= getattr(n, 'lineno', 0) <= store.lineno})
+            if inst and 'self' not in knames:
+                out.append(('M5', 'the memo %s lives in the class body, so every instance shares it, but the value it stores is computed from '
+                            'the instance (%s) and the key %s does not identify the instance: two instances built with different data '
+                            'answer from one table' % (cont, ', '.join(inst[:4]), ktxt), store))
         # M3: stored value is what the miss path returns
         stored_name = value.id if isinstance(value, ast.Name) else None
         if len(store.targets) > 1:
@@ -232,9 +253,165 @@ def scan_files(repo, rels, skip=()):
             if (rel, q) in skip or q.split('.')[-1] in ('__init__',):
                 continue
             n_fn += 1
-            res, memos = analyse(fn, mm)
+            cls_node = mod.classes.get(q.split('.')[0]) if '.' in q else None
+            res, memos = analyse(fn, mm, cls_node)
             for rule, msg, node in res:
                 out.append((rel, q, rule, msg, node))
             for msg, node in shared_alias_mutations(fn, mm):
                 out.append((rel, q, 'ALIAS', msg, node))
+        for q, msg, node in instance_memo_problems(mod):
+            out.append((rel, q, 'STALE', msg, node))
     return out, n_fn
+
+
+# ---- instance memos: a derived value cached in an attribute with explicit invalidation ------------------------------------------
+
+def instance_memos(mod):
+    """[(class name, holder function, memo attribute, [computing functions])] for the idiom
+         if self.X is None: self.X = <expr>      (or `if not hasattr` / `== None`)
+         return self.X
+    inside a method or property"""
+    out = []
+    for cname, cnode in mod.classes.items():
+        if '.' in cname:
+            continue
+        meths = {f.name: f for f in cnode.body if isinstance(f, ast.FunctionDef)}
+        for f in meths.values():
+            for st in f.body:
+                if not (isinstance(st, ast.If) and isinstance(st.test, ast.Compare) and len(st.test.ops) == 1
+                        and isinstance(st.test.ops[0], (ast.Is, ast.Eq)) and isinstance(st.test.comparators[0], ast.Constant)
+                        and st.test.comparators[0].value is None and isinstance(st.test.left, ast.Attribute)
+                        and isinstance(st.test.left.value, ast.Name) and st.test.left.value.id == 'self'):
+                    continue
+                attr = st.test.left.attr
+                stores = [a for a in st.body if isinstance(a, ast.Assign) and any(
+                    isinstance(t, ast.Attribute) and t.attr == attr and isinstance(t.value, ast.Name) and t.value.id == 'self' for t in a.targets)]
+                returns = [r for r in ast.walk(f) if isinstance(r, ast.Return) and isinstance(r.value, ast.Attribute) and r.value.attr == attr]
+                if not stores or not returns:
+                    continue
+                comp = []
+                for a in stores:
+                    for c in ast.walk(a.value):
+                        if isinstance(c, ast.Attribute) and isinstance(c.value, ast.Name) and c.value.id == 'self' and c.attr in meths:
+                            comp.append(meths[c.attr])
+                    if not comp:
+                        comp.append(f)      # computed inline
+                out.append((cname, f, attr, comp, meths, stores))
+    return out
+
+
+def attr_reads(fn, meths, seen=None):
+    """attribute names read on self by fn, transitively through self.method() / self.property"""
+    seen = seen if seen is not None else set()
+    if fn.name in seen:
+        return set()
+    seen.add(fn.name)
+    out = set()
+    for n in ast.walk(fn):
+        if isinstance(n, ast.Attribute) and isinstance(n.value, ast.Name) and n.value.id == 'self' and isinstance(n.ctx, ast.Load):
+            if n.attr in meths:
+                out |= attr_reads(meths[n.attr], meths, seen)
+            else:
+                out.add(n.attr)
+    return out
+
+
+def observed_chars(comp_fns, attr):
+    """the set of characters whose counts are all that the computing functions observe of the list-of-strings attribute, or None
+    when it is read in any other way.  Patterns: self.A[i].count('c')  and  <gen>.count('c') for <gen> in self.A[...]"""
+    chars = set()
+    for fn in comp_fns:
+        for n in ast.walk(fn):
+            if not (isinstance(n, ast.Attribute) and n.attr == attr and isinstance(n.value, ast.Name) and n.value.id == 'self'
+                    and isinstance(n.ctx, ast.Load)):
+                continue
+            p = getattr(n, '_parent', None)
+            if isinstance(p, ast.Subscript) and p.value is n:
+                pp = getattr(p, '_parent', None)
+                ppp = getattr(pp, '_parent', None)
+                if isinstance(pp, ast.Attribute) and pp.attr == 'count' and isinstance(ppp, ast.Call) and ppp.func is pp \
+                        and len(ppp.args) == 1 and isinstance(ppp.args[0], ast.Constant) and isinstance(ppp.args[0].value, str):
+                    chars |= set(ppp.args[0].value)
+                    continue
+                if isinstance(pp, ast.comprehension) and pp.iter is p and isinstance(pp.target, ast.Name):
+                    gen = getattr(pp, '_parent', None)
+                    ok = True
+                    for u in ast.walk(gen):
+                        if isinstance(u, ast.Name) and u.id == pp.target.id and isinstance(u.ctx, ast.Load):
+                            up = getattr(u, '_parent', None)
+                            upp = getattr(up, '_parent', None)
+                            if isinstance(up, ast.Attribute) and up.attr == 'count' and isinstance(upp, ast.Call) and len(upp.args) == 1 \
+                                    and isinstance(upp.args[0], ast.Constant) and isinstance(upp.args[0].value, str):
+                                chars |= set(upp.args[0].value)
+                            else:
+                                ok = False
+                    if ok:
+                        continue
+                return None
+            if isinstance(p, ast.Call) and call_name(p) == 'len':
+                return None
+            return None
+    return chars
+
+
+def instance_memo_problems(mod):
+    """[(qualname of the writer, message, node)]: a write of an attribute the memo depends on that is not followed, in the same
+    function and on the same receiver, by a reset of the memo"""
+    out = []
+    for cname, holder, attr, comp, meths, stores in instance_memos(mod):
+        deps = set()
+        for c in comp:
+            if c is holder:
+                for a in stores:
+                    for n in ast.walk(a.value):
+                        if isinstance(n, ast.Attribute) and isinstance(n.value, ast.Name) and n.value.id == 'self':
+                            deps.add(n.attr)
+            else:
+                deps |= attr_reads(c, meths)
+        deps.discard(attr)
+        for q, fn in mod.functions.items():
+            if q.split('.')[-1] == '__init__' or fn is holder:
+                continue
+            resets = {}
+            for n in ast.walk(fn):
+                if isinstance(n, ast.Assign) and isinstance(n.value, ast.Constant) and n.value.value is None:
+                    for t in n.targets:
+                        if isinstance(t, ast.Attribute) and t.attr == attr:
+                            resets.setdefault(ast.unparse(t.value), []).append(n.lineno)
+            for n in ast.walk(fn):
+                tgt = None
+                if isinstance(n, (ast.Assign, ast.AugAssign)):
+                    for t in (n.targets if isinstance(n, ast.Assign) else [n.target]):
+                        for x in ([t] + (list(t.elts) if isinstance(t, (ast.Tuple, ast.List)) else [])):
+                            b = x
+                            while isinstance(b, ast.Subscript):
+                                b = b.value
+                            if isinstance(b, ast.Attribute) and b.attr in deps:
+                                tgt = b
+                elif isinstance(n, ast.Call) and isinstance(n.func, ast.Attribute) and n.func.attr in (
+                        'append', 'extend', 'pop', 'insert', 'clear', 'remove', 'update', 'setdefault', 'sort', 'reverse') \
+                        and isinstance(n.func.value, ast.Attribute) and n.func.value.attr in deps:
+                    tgt = n.func.value
+                if tgt is None:
+                    continue
+                recv = ast.unparse(tgt.value)
+                # a write that cannot change what the computation observes: appending characters it does not count
+                obs = observed_chars([c for c in comp if c is not holder] or comp, tgt.attr)
+                added = None
+                if isinstance(n, ast.AugAssign) and isinstance(n.op, ast.Add) and isinstance(n.value, ast.Constant) and isinstance(n.value.value, str) \
+                        and isinstance(n.target, ast.Subscript):
+                    added = n.value.value
+                if isinstance(n, ast.Call) and n.func.attr == 'append' and len(n.args) == 1 and isinstance(n.args[0], ast.Constant) \
+                        and isinstance(n.args[0].value, str):
+                    added = n.args[0].value
+                if obs is not None and added is not None and not (set(added) & obs):
+                    continue
+                # the memo may be dropped before the write, as long as nothing recomputes it in between
+                rl = resets.get(recv, [])
+                rereads = [x.lineno for x in ast.walk(fn) if isinstance(x, ast.Attribute) and x.attr == holder.name and isinstance(x.ctx, ast.Load)]
+                if not any(ln >= n.lineno or not any(ln < r_ <= n.lineno for r_ in rereads) for ln in rl):
+                    out.append((q, '%s.%s caches a value computed from %s in the attribute %s and drops it only in some writers; %s changes '
+                                   '`%s.%s` (%s) without dropping the memo of `%s`, so the cached value is stale afterwards' % (
+                                       cname, holder.name, sorted(deps), attr, q, recv, tgt.attr, unparse(n)[:60], recv), n))
+    return out
+
